@@ -13,6 +13,20 @@ REAL_ENG = ["muxer", "protocol.Protocol engine (stateLoop/readLoop/recvLoop/send
 STUB_ENG = STUB_NET + ["application (harness handler tasks)", "message contents (opaque tagged CBOR arrays, except tx-submission RequestTxIds)"]
 
 PROPS = {
+ "C11": P([("advrecv", 1)], 4000, 200000,
+          "one evaluation = one simulated run of one real engine (one of 11 repository state maps, client or server role) against a raw peer sending 1-12 permitted / wrong-state / unknown-type messages and possibly malformed bytes, with a local application that answers from inside the handler; the oracle replays the deterministic merge of both message sequences on the declared state-map data; distinct = distinct schedule hash; non-trivial = at least one message reached the handler or an offending message was processed",
+          ["advrecv.handled", "advrecv.offending-message-processed"], expect=["advrecv.handled", "advrecv.offending-message-processed", "advrecv.garbage-after-valid"], real=REAL_ENG, stubs=STUB_ENG + ["remote peer (scripted raw-segment peer)"]),
+ "C13": P([("backpressure", 1)], 900, 40000,
+          "one evaluation = one simulated run of a real receiving engine with a stalling handler fed by a raw peer over a bounded socket buffer: fast stream of valid messages (sizes up to the state's byte limit), one oversized message, or an endless incomplete CBOR item (read-buffer bound scaled by a knob, the real 16 MiB in part of the thorough tier); distinct = distinct schedule hash; non-trivial = the sender was observed blocked by back-pressure, or the error arm fired",
+          ["net.writer-blocked", "bp.oversize", "bp.endless-incomplete"], expect=["bp.fast-valid-complete", "bp.pending-above-half-limit", "bp.oversize", "bp.endless-incomplete", "net.writer-blocked"], real=REAL_ENG, stubs=STUB_ENG + ["remote peer (scripted raw-segment peer)"],
+          assumptions=["pending-bytes probe is read at the instrumenter's anchors after each mutation of Protocol.pendingRecvBytes; an independent byte count at the connection cross-checks it"], budget=(240, 2400)),
+ "C14": P([("timeout", 1)], 3000, 100000,
+          "one evaluation = one simulated run that drives a real engine (repository state map with its declared timeouts, either role) into a chosen state by a lock-step conversation and lets the agency holder move after a delay drawn from {0, T/2, T-10ms, T+10ms, 2T, never} (MustReply: around [135 s, 269 s]); exact simulated time (zero latency, no stalls); distinct = distinct schedule hash; non-trivial = the run reached its target state and evaluated a must-fire or must-not-fire obligation",
+          ["timeout.must-fire", "timeout.must-not-fire"], real=REAL_ENG, stubs=STUB_ENG + ["remote peer (scripted raw-segment peer)"]),
+ "C16": P([("specwalk", 1)], 6000, 300000,
+          "one evaluation = one simulated walk (1-14 messages) of an independent specification automaton through a real engine using the repository's state map and codec; in each visited state a message (60% permitted, 40% any tag of the protocol) is tried from the side the specification gives agency; accept/reject must equal the specification; distinct = distinct schedule hash; non-trivial = the walk observed a rejection or reached the terminal state; coverage counted as distinct (protocol,state,message,sender) triples in probes_hit",
+          ["specwalk.rejection-observed", "specwalk.terminal-reached"], real=REAL_ENG + ["message codecs (NewMsgFromCbor) of the ten network-specification protocols"], stubs=STUB_NET + ["remote peer (scripted raw-segment peer)", "application"],
+          assumptions=["the specification automata (harness/spec.go) were written from the Ouroboros network specification; spec equality is claimed for handshake, chain-sync, block-fetch, tx-submission, keep-alive, local-tx-submission, local-state-query, local-tx-monitor and peer-sharing only (DESIGN 8/C16)"]),
  "C10": P([("msg", 1)], 1500, 60000,
           "one evaluation = one simulated run of two real protocol engines over real muxers over simnet exchanging 1-3 rounds of up to 30 messages per direction (sizes 12 B .. 3 MiB, 1-3 concurrent sender tasks, slow handlers, fragmentation, bounded socket buffer, stalls); distinct = distinct schedule hash; non-trivial = at least one message spanned several segments or several messages shared one segment",
           ["msg.multi-segment-message", "msg.several-messages-in-one-segment"], real=REAL_ENG, stubs=STUB_ENG),
